@@ -7,6 +7,7 @@ def run_ops(ctx, prop, mon_cfg, mine):
     core.design_check(ctx, "Operators.tla", "Operators.cfg" if quick else "Operators_deep.cfg", timeout=1500)
     hs = core.generate(ctx, "Gen_Operators.tla", "Gen_Operators_hs.cfg", 0, 0, ctx.seed, bfs=True, timeout=900)
     hs += core.generate(ctx, "Gen_Operators.tla", "Gen_Operators_lsn.cfg", 0, 0, ctx.seed, bfs=True, timeout=900)
+    hs += core.generate(ctx, "Gen_Operators.tla", "Gen_Operators_race.cfg", 0, 0, ctx.seed, bfs=True, timeout=900)
     walks = core.generate(ctx, "Gen_Operators.tla", "Gen_Operators.cfg", 120 if quick else 2500, 12, ctx.seed, timeout=900)
     ctx.say("  behaviours: %d handshake matrices (every first-message kind x broadcast timing) + %d random walks (12 steps)" % (len(hs), len(walks)))
     behs = hs + walks
